@@ -1,5 +1,6 @@
 import GodiProofs.Props.C07
 import GodiProofs.Container.NoNotFound
+import GodiProofs.Container.BuildTotal
 /-!
 # C08 — Build accepts exactly the registration sets whose services are resolvable (validation half)
 -/
@@ -102,6 +103,44 @@ theorem construction_never_not_found (beh : Beh) (st : State) (hv : verdict st.d
 theorem builtin_never_not_found (beh : Beh) (st : State) (hv : verdict st.descs = .ok) (s ty : Nat) (ht : ty < 3) :
     noNF (scopeGet beh st s ty 0).2 = true :=
   ((noNotFound beh st.descs (present_of_verdict _ hv) (fuelFor st)).1 st s ty 0 rfl).1 (Or.inr ⟨rfl, ht⟩)
+
+/-- **BUILD ACCEPTS EVERY VALID SET** (the converse): a registration set with the collection's structural guarantees
+that passes validation — no dependency cycle, no lifetime conflict, no missing required dependency; missing optional
+dependencies, empty groups and initializers that depend on singletons are all allowed —, whose constructors succeed
+(`GoodBeh`: no invocation fails, no result-object field is left nil), built in a creation order that lists every
+singleton after the singletons it reaches directly or through transients/scoped services (what the topological sort
+delivers, `Props/C06`): `doBuild` creates the root scope, every singleton and runs the root scope's initializers
+without an error. (`Container/BuildTotal.lean`: a construction whose singleton dependencies are stored succeeds or runs
+out of fuel, by induction on the fuel over the six resolution functions; it does not run out of fuel, `Props/C05b`.) -/
+theorem build_accepts_valid_sets (beh : Beh) (gb : GoodBeh beh) (descs : List Desc) (order : List Nat)
+    (hyp : failedHyps descs = []) (hv : verdict descs = .ok)
+    (hall : ∀ d ∈ descs, d.life = .singleton → d.id ∈ order)
+    (hord : ∀ pre id post, order = pre ++ id :: post → ∀ d, findDesc descs id = some d → d.life = .singleton →
+      ∀ t, ReachLong descs d t → t.life = .singleton → t.id ∈ pre) :
+    (build beh descs order).2 = .ok () :=
+  build_succeeds beh gb descs order hyp hv hall hord
+
+/-- … and on the provider it returns (as in any state where the singletons are stored), every registered service
+resolves from every open scope: the result is a value, not an error -/
+theorem every_service_resolves (beh : Beh) (gb : GoodBeh beh) (descs : List Desc)
+    (hyp : failedHyps descs = []) (hv : verdict descs = .ok) (st : State) (s : Nat)
+    (hst : st.descs = descs) (hopen : (st.scope s).disposed = false) (hna : NoAbsent st)
+    (hall : ∀ t ∈ descs, t.life = .singleton → StoredS st t) (d : Desc) (hd : d ∈ descs) :
+    ∃ v, (createInstance beh (fuelFor st) st s d).2 = .ok v :=
+  createInstance_succeeds beh gb descs (valid_of_check descs hyp hv) st s ⟨hst, hopen, hna⟩ d hd
+    (fun t ht htl => hall t (reachLong_mem ht) htl)
+
+/-- singleton 8 ← transient 7 ← singleton 6 ← scoped initializer: built in the order 8, 6 -/
+def exChain : List Desc :=
+  [{ id := 0, ident := ⟨6, 0, 0⟩, life := .singleton, ctor := 1, kind := .plain, deps := [{ ty := 7 }, { ty := 9, optional := true }] },
+   { id := 1, ident := ⟨7, 0, 0⟩, life := .transient, ctor := 2, kind := .plain, deps := [{ ty := 8 }, { ty := 5, grp := 3 }] },
+   { id := 2, ident := ⟨8, 0, 0⟩, life := .singleton, ctor := 3, kind := .plain, deps := [] },
+   { id := 3, ident := ⟨10, 0, 0⟩, life := .scoped, ctor := 4, kind := .void, deps := [{ ty := 6 }] }]
+example : failedHyps exChain = [] ∧ verdict exChain = .ok := by decide
+def isOkU (r : Except Err Unit) : Bool := match r with | .ok _ => true | .error _ => false
+example : isOkU (build {} exChain [2, 1, 0, 3]).2 = true := by decide
+/-- the order matters for the premise: with 6 before 8 the model's Build reports "singleton not initialized" -/
+example : isOkU (build {} exChain [0, 2]).2 = false := by decide
 
 def exMissing : List Desc :=
   [{ id := 0, ident := ⟨3, 0, 0⟩, life := .scoped, ctor := 1, kind := .plain, deps := [{ ty := 9 }] }]
